@@ -93,6 +93,9 @@ def fingerprint_url(url, unsplit=True, strip_suffix=False, platform_aware=False)
     if hostname:
         hostname = strip_lang_subdomains_from_hostname(hostname)
 
+        # NOTE: the language subdomain can hide an irrelevant prefix (fr.amp-site.com)
+        hostname = normalize_hostname(hostname)
+
         if strip_suffix:
             # TODO: this is not performant because the code path reparses again
             r = split_suffix(hostname)
